@@ -313,13 +313,20 @@ class Rope:
 
     def be(self):
         """int.from_bytes(self, 'big')"""
-        total = 0
+        total = None
         segs = self._be_segs()
         off = sum(n for _, n in segs)
+        conc = 0
         for v, n in segs:
             off -= n
-            total = total + v * (256 ** off)
-        return total
+            if not is_sym(v):
+                conc += v * (256 ** off)
+                continue
+            t = v if off == 0 else v * (256 ** off)
+            total = t if total is None else total + t
+        if total is None:
+            return conc
+        return total if conc == 0 else total + conc
 
     def le(self):
         """int.from_bytes(self, 'little')"""
